@@ -483,6 +483,14 @@ func TestPipelines(t *testing.T) {
 		sinceIncr := false
 		for i := 0; i < n; i++ {
 			a := genAction(t)
+			if a.K == "creg" && rapid.IntRange(0, 3).Draw(t, "neighbour") == 0 {
+				// a register is given the value of one close to the selector (itself, or up to
+				// seven below or one above it), in the plain or the incrementing form
+				d := rapid.IntRange(-1, 7).Draw(t, "neighbour.d")
+				col := ops.ColorV{T: 2, R: uint8(int(model.ModelCSel())-d) & 63}
+				a.C = &col
+				labels["register-copied-from-one-next-to-the-selector"] = true
+			}
 			if m := len(c.Actions); m > 0 && rapid.IntRange(0, 7).Draw(t, "again") == 0 {
 				// the value just written, written again: identical call, or through the other
 				// addressing form so that it lands on the register that already holds it
